@@ -245,6 +245,36 @@ pub fn run_case(out: &mut Out, id: u64, case: &Case) {
 	}
 }
 
+/// Rust-vs-Rust: the batch `collapse_timeframe` of a sequence against the streaming method and
+/// against a from-scratch aggregation (first open, max high, min low, last close, summed volume)
+pub fn collapse_batch_check(out: &mut Out, id: u64, period: usize, cs: &[Candle]) {
+	use yata::core::Sequence;
+	out.line(&format!("C {} flags collapse_batch {}", id, period));
+	let streamed: Vec<Candle> = {
+		let mut m = CollapseTimeframe::<Candle>::new(period, &cs[0]).unwrap();
+		cs.iter().filter_map(|c| m.next(c)).collect()
+	};
+	let batch = guard(|| cs.to_vec().collapse_timeframe(period, false));
+	let oracle = |w: &[Candle]| Candle {
+		open: w[0].open,
+		high: w.iter().fold(V::NEG_INFINITY, |a, c| a.max(c.high)),
+		low: w.iter().fold(V::INFINITY, |a, c| a.min(c.low)),
+		close: w[w.len() - 1].close,
+		volume: w.iter().skip(1).fold(w[0].volume, |a, c| a + c.volume),
+	};
+	let scratch: Vec<Candle> = cs.chunks_exact(period).map(oracle).collect();
+	let ok1 = batch.as_ref().map_or(false, |b| *b == streamed);
+	let ok2 = streamed == scratch;
+	let cont = guard(|| cs.to_vec().collapse_timeframe(period, true));
+	let scratch_c: Vec<Candle> = cs.windows(period).map(oracle).collect();
+	let ok3 = cont.map_or(false, |c| c == scratch_c);
+	out.line(&format!("F batch_eq_stream n={} ; ok=i{}", streamed.len(), ok1 as u8));
+	out.line(&format!("F stream_eq_definition n={} expected={} ; ok=i{}", streamed.len(), cs.len() / period, (ok2 && streamed.len() == cs.len() / period) as u8));
+	out.line(&format!("F continuous_eq_definition n={} ; ok=i{}", scratch_c.len(), ok3 as u8));
+	out.line("E");
+	out.count("collapse_batch");
+}
+
 /// rebuild a case from replayed transcript lines
 pub fn replay_case(out: &mut Out, id: u64, lines: &[String]) {
 	let head: Vec<&str> = lines[0].split_whitespace().collect();
@@ -533,6 +563,10 @@ pub fn suite(out: &mut Out, seed: u64, thorough: bool, filter: &[String]) {
 			out.count(&format!("cclass:{}", class));
 			run_case(out, id, &case);
 			id += 1;
+			if name == "collapse" {
+				collapse_batch_check(out, id, p as usize, &cs);
+				id += 1;
+			}
 		}
 	}
 	out.add("cases", id);
